@@ -1044,6 +1044,7 @@ func checkC19(w *World) {
 		w.undecided(P, "R19.1", "scalar conversion", um.Pos(), "no function with a reflect.Kind parameter reachable from Unmarshal")
 	} else {
 		covered := map[int64]bool{}
+		tableSrc := ""
 		checkRet := func(k int64, ret *ssa.Return) {
 			if len(ret.Results) < 1 {
 				return
@@ -1071,6 +1072,9 @@ func checkC19(w *World) {
 				}
 				return true
 			})
+			if src == "" && tableSrc != "" {
+				src = tableSrc
+			}
 			wantSrc := "Number"
 			if k == 24 {
 				wantSrc = "String"
@@ -1166,11 +1170,44 @@ func checkC19(w *World) {
 				if fn == nil {
 					continue
 				}
+				// an entry that receives the already converted number: the conversion method is the one applied to the
+				// argument where the looked-up function is called
+				tableSrc = ""
+				if len(fn.Params) == 1 {
+					if b, ok := fn.Params[0].Type().Underlying().(*types.Basic); ok && b.Kind() == types.Float64 {
+						for _, rr := range referrers(lk) {
+							fv := ssa.Value(nil)
+							if ex, ok := rr.(*ssa.Extract); ok && ex.Index == 0 {
+								fv = ex
+							}
+							if fv == nil {
+								continue
+							}
+							for _, r2 := range referrers(fv) {
+								if c, ok := r2.(*ssa.Call); ok && c.Call.Value == fv && len(c.Call.Args) == 1 {
+									if _, isNum := isMethodCall(stripConvAll(c.Call.Args[0]), "Number"); isNum {
+										tableSrc = "Number"
+									}
+								}
+							}
+						}
+						if !lk.CommaOk {
+							for _, r2 := range referrers(lk) {
+								if c, ok := r2.(*ssa.Call); ok && c.Call.Value == ssa.Value(lk) && len(c.Call.Args) == 1 {
+									if _, isNum := isMethodCall(stripConvAll(c.Call.Args[0]), "Number"); isNum {
+										tableSrc = "Number"
+									}
+								}
+							}
+						}
+					}
+				}
 				allInstrs(fn, func(in2 ssa.Instruction) {
 					if ret, ok := in2.(*ssa.Return); ok {
 						checkRet(k, ret)
 					}
 				})
+				tableSrc = ""
 			}
 		})
 		for k, name := range reflectKindNames {
